@@ -46,7 +46,7 @@ class Fold:
         return self.upto(self.n)
 
 
-def get_fold(ctx, n, body_fn, intflag=None):
+def get_fold(ctx, n, body_fn, intflag=None, origin="spec"):
     """canonical fold for body_fn over [0,n): same body term => same function symbol"""
     v = z3.Int("foldvar")
     key = (z3.simplify(body_fn(v)).sexpr(), z3.simplify(n).sexpr())
@@ -54,16 +54,43 @@ def get_fold(ctx, n, body_fn, intflag=None):
     if key in folds:
         return folds[key]
     f = Fold(ctx, key, n, body_fn, intflag)
-    # extensionality against every earlier fold over a range of the same length
-    j, m = z3.Ints("extj extm")
-    for other in folds.values():
-        if other.key[1] != key[1]:
+    # extensionality (lemma `ext`, proved by induction in the lemma run) against every earlier fold of the same length
+    from . import lemmas
+
+    f.origin = origin
+    for other in list(folds.values()):
+        # automatic extensionality only between a fold created by the executed code and one created by a
+        # specification (the two may spell the same body differently); other pairs: invoke c.lemma("ext", f, g)
+        if other.key[1] != key[1] or other.origin == origin:
             continue
-        same = z3.ForAll([j], z3.Implies(z3.And(0 <= j, j < n), f.body_fn(j) == other.body_fn(j)))
-        ctx.assume(z3.Implies(same, z3.ForAll([m], z3.Implies(z3.And(0 <= m, m <= n), f.F(m) == other.F(m)))))
-        ctx.note("lemma fold-extensionality used (schema proved by induction in the lemma run)")
+        ctx.assume(lemmas.instantiate(ctx, "ext", f, other))
     folds[key] = f
     return f
+
+
+def spec_lemma_forall(spec, name, n, fn):
+    """the universal closure over indices j in [0,n) of an arithmetic lemma instance (the lemma holds for all reals)"""
+    from . import lemmas
+
+    j = z3.Int("lfj")
+    args = [a.r if isinstance(a, N) else a for a in fn(j)]
+    spec.ctx.assume(z3.ForAll([j], z3.Implies(z3.And(0 <= j, j < n), lemmas.instantiate(spec.ctx, name, *args))))
+    return z3.BoolVal(True)
+
+
+Spec.lemma_forall = spec_lemma_forall
+
+
+def spec_lemma(spec, name, *args):
+    """invoke a fold lemma (schema proved by induction on every run, see lemmas.py) as an assumption"""
+    from . import lemmas
+
+    args = [a.r if isinstance(a, N) else a for a in args]
+    spec.ctx.assume(lemmas.instantiate(spec.ctx, name, *args))
+    return z3.BoolVal(True)
+
+
+Spec.lemma = spec_lemma
 
 
 def spec_sum(spec, seq, fn):
@@ -330,7 +357,8 @@ def symbolic_sum(I, it, start):
     def body(k):
         return Z.rval(z3.substitute(term, (j, k)))
 
-    f = get_fold(ctx, n, body)
+    ctx.ghost["nondet"] = True  # a fold is an uninterpreted function unfolded only where the proof needs it
+    f = get_fold(ctx, n, body, origin="code")
     f.unfold(n - 1)
     f.unfold(z3.IntVal(0))
     total = f.F(n)
